@@ -174,6 +174,45 @@ EDITS = {
         (RUN, PASS2_OPEN, PASS2_OPEN.split("    file_input")[0] + "    file_input = open_input(program_info['training_file'])\n"),
         (RUN, PASS3_OPEN, PASS3_OPEN.split("    file_input")[0] + "    file_input = open_input(program_info['training_file'])\n"),
         (RUN, MW_OLD, "        multiword_input = open_input(program_info['multiword'])\n")],
+    # ---------------- mutations in the idioms accepted since the second round of harmless refactorings (R18)
+    "m11_enumerate_index_stops_pass2_early": [(RUN, PASS2_LOOP, """        for num_parsed_so_far, password in enumerate(file_input.read_password(), start=1):
+
+            # Only the first million passwords are worth parsing
+            if num_parsed_so_far > 1000000:
+                continue
+
+            # Parse OMEN info
+            omen_trainer.parse(password)
+            
+            # Parse the pcfg info
+            pcfg_parser.parse(password)
+""")],
+    "m12_status_helper_also_trains": [(RUN, """def run_trainer(program_info, base_directory):
+""", """def _print_status(num_parsed_so_far, detector, password):
+    if num_parsed_so_far % 1000000 == 0:
+        print(f"{num_parsed_so_far // 1000000} Million")
+    detector.train(password)
+
+
+def run_trainer(program_info, base_directory):
+"""), (RUN, PASS2_LOOP, PASS2_LOOP.replace("""            num_parsed_so_far += 1
+            if num_parsed_so_far % 1000000 == 0:
+                print(str(num_parsed_so_far//1000000) +' Million')
+""", """            num_parsed_so_far += 1
+            _print_status(num_parsed_so_far, multiword_detector, password)
+"""))],
+    "m13_open_helper_drops_prefixcount": [(RUN, """def run_trainer(program_info, base_directory):
+""", """def _open_training_file(program_info):
+    return TrainerFileInput(
+        program_info['training_file'],
+        program_info['encoding'])
+
+
+def run_trainer(program_info, base_directory):
+"""), (RUN, PASS2_OPEN, PASS2_OPEN.split("    file_input")[0] + "    file_input = _open_training_file(program_info)\n")],
+    "m14_range_check_on_args_lower_bound_strict": [(MAIN, """    if program_info['coverage'] < 0 or program_info['coverage'] > 1.0:
+""", """    if args.coverage <= 0 or args.coverage > 1.0:
+""")],
     # ---------------- harmless edits
     "h1_comments_docstrings_print_texts": [(RUN, """    # Perform the first pass of the training list
 """, """    # First pass over the training list (comment reworded)
@@ -238,6 +277,7 @@ EDITS = {
     "h5_training_file_opened_by_a_helper": [(RUN, FIRST_OPEN, HELPER_H),
         (RUN, PASS2_OPEN, PASS2_OPEN.split("    file_input")[0] + "    file_input = open_training()\n"),
         (RUN, PASS3_OPEN, PASS3_OPEN.split("    file_input")[0] + "    file_input = open_training()\n")],
+    "h6_H5-4_refactoring": "/tmp/mut_out/H5/harmless_4.diff",
 }
 
 
@@ -247,6 +287,11 @@ def git_show(rel):
 
 def main():
     for name, edits in EDITS.items():
+        if isinstance(edits, str):       # a diff kept as it was written
+            with open(edits, newline="") as f, open(os.path.join(HERE, name + ".diff"), "w", newline="") as g:
+                g.write(f.read())
+            print(name)
+            continue
         texts = {}
         for rel, old, new in edits:
             cur = texts.get(rel) or git_show(rel)
